@@ -1,6 +1,7 @@
 package eng
 
 import (
+	"fmt"
 	"go/constant"
 	"go/token"
 	"go/types"
@@ -682,44 +683,120 @@ func ShortType(t types.Type) string {
 
 // ReachPhiAware searches the instructions executed after start (same function, no descent
 // into callees) for one satisfying target, not continuing past instructions satisfying avoid.
-// Unlike Search it tracks, along each path, the boolean phis whose value is known (a constant
-// operand for the predecessor taken, or another phi already known), so a branch on such a phi
-// takes only the matching edge: `for running := true; running; { … }` cannot be left before
-// an iteration has set the flag to false.
+// Unlike Search it tracks, along each path, the boolean and integer phis whose value is known
+// (a constant operand for the predecessor taken, another known phi, known±constant), so that
+//   - a branch on a known boolean phi takes only the matching edge: `for running := true;
+//     running; { … }` cannot be left before an iteration has set the flag to false;
+//   - a loop `for i := range S` / `for i := 0; i < len(S); i++` over a slice of statically
+//     known, non-zero length (a composite literal) cannot be skipped.
 func ReachPhiAware(start ssa.Instruction, target, avoid Pred) ssa.Instruction {
+	sb := start.Block()
+	idx := 0
+	for i, in := range sb.Instrs {
+		if in == start {
+			idx = i + 1
+		}
+	}
+	return reachPhiAware(start.Parent(), sb, idx, target, avoid)
+}
+
+// ReachPhiAwareFromEntry is ReachPhiAware from the entry of fn.
+func ReachPhiAwareFromEntry(fn *ssa.Function, target, avoid Pred) ssa.Instruction {
+	if len(fn.Blocks) == 0 {
+		return nil
+	}
+	return reachPhiAware(fn, fn.Blocks[0], 0, target, avoid)
+}
+
+// staticLen: the length of v when it is fixed by construction (slice of a local array,
+// make with a constant length).
+func staticLen(v ssa.Value) (int64, bool) {
+	switch x := v.(type) {
+	case *ssa.Slice:
+		if x.Low != nil || x.High != nil {
+			return 0, false
+		}
+		if al, ok := x.X.(*ssa.Alloc); ok {
+			if pt, ok := al.Type().(*types.Pointer); ok {
+				if at, ok := pt.Elem().Underlying().(*types.Array); ok {
+					return at.Len(), true
+				}
+			}
+		}
+	case *ssa.MakeSlice:
+		return ConstInt(x.Len)
+	}
+	return 0, false
+}
+
+func reachPhiAware(fn *ssa.Function, sb *ssa.BasicBlock, idx int, target, avoid Pred) ssa.Instruction {
 	type node struct {
 		b   *ssa.BasicBlock
 		env string
 	}
 	type item struct {
 		b     *ssa.BasicBlock
-		known map[*ssa.Phi]bool
+		known map[*ssa.Phi]int64
 	}
-	fn := start.Parent()
-	var boolPhis []*ssa.Phi
+	var phis []*ssa.Phi
 	for _, b := range fn.Blocks {
 		for _, in := range b.Instrs {
 			if ph, ok := in.(*ssa.Phi); ok {
-				if bt, isB := ph.Type().Underlying().(*types.Basic); isB && bt.Kind() == types.Bool {
-					boolPhis = append(boolPhis, ph)
+				if bt, isB := ph.Type().Underlying().(*types.Basic); isB && (bt.Kind() == types.Bool || bt.Info()&types.IsInteger != 0) {
+					phis = append(phis, ph)
 				}
 			}
 		}
 	}
-	envKey := func(k map[*ssa.Phi]bool) string {
-		out := make([]byte, len(boolPhis))
-		for i, ph := range boolPhis {
-			v, ok := k[ph]
-			switch {
-			case !ok:
-				out[i] = '?'
-			case v:
-				out[i] = 'T'
-			default:
-				out[i] = 'F'
+	envKey := func(k map[*ssa.Phi]int64) string {
+		var sbd strings.Builder
+		for _, ph := range phis {
+			if v, ok := k[ph]; ok {
+				fmt.Fprintf(&sbd, "%d,", v)
+			} else {
+				sbd.WriteString("?,")
 			}
 		}
-		return string(out)
+		return sbd.String()
+	}
+	// evalInt: the value of v on the path, if known
+	var evalInt func(v ssa.Value, known map[*ssa.Phi]int64, depth int) (int64, bool)
+	evalInt = func(v ssa.Value, known map[*ssa.Phi]int64, depth int) (int64, bool) {
+		if depth > 4 {
+			return 0, false
+		}
+		if bv, isC := ConstBool(v); isC {
+			if bv {
+				return 1, true
+			}
+			return 0, true
+		}
+		if k, isC := ConstInt(v); isC {
+			return k, true
+		}
+		switch x := v.(type) {
+		case *ssa.Phi:
+			k, ok := known[x]
+			return k, ok
+		case *ssa.BinOp:
+			a, ok1 := evalInt(x.X, known, depth+1)
+			b, ok2 := evalInt(x.Y, known, depth+1)
+			if ok1 && ok2 {
+				switch x.Op {
+				case token.ADD:
+					return a + b, true
+				case token.SUB:
+					return a - b, true
+				}
+			}
+		case *ssa.Call:
+			if CalleeName(x.Common()) == "builtin.len" && len(x.Call.Args) == 1 {
+				return staticLen(x.Call.Args[0])
+			}
+		case *ssa.Convert:
+			return evalInt(x.X, known, depth+1)
+		}
+		return 0, false
 	}
 	seen := map[node]bool{}
 	var hit ssa.Instruction
@@ -749,14 +826,34 @@ func ReachPhiAware(start ssa.Instruction, target, avoid Pred) ssa.Instruction {
 				if u, ok := cond.(*ssa.UnOp); ok && u.Op == token.NOT {
 					cond, neg = u.X, true
 				}
+				decided, truth := false, false
 				if ph, ok := cond.(*ssa.Phi); ok {
 					if bv, known := it.known[ph]; known {
-						if neg {
-							bv = !bv
+						decided, truth = true, bv != 0
+					}
+				}
+				if bo, ok := cond.(*ssa.BinOp); ok && !decided {
+					a, ok1 := evalInt(bo.X, it.known, 0)
+					c, ok2 := evalInt(bo.Y, it.known, 0)
+					if ok1 && ok2 {
+						switch bo.Op {
+						case token.LSS:
+							decided, truth = true, a < c
+						case token.LEQ:
+							decided, truth = true, a <= c
+						case token.GTR:
+							decided, truth = true, a > c
+						case token.GEQ:
+							decided, truth = true, a >= c
 						}
-						if (k == 0) != bv {
-							continue
-						}
+					}
+				}
+				if decided {
+					if neg {
+						truth = !truth
+					}
+					if (k == 0) != truth {
+						continue
 					}
 				}
 			}
@@ -767,7 +864,7 @@ func ReachPhiAware(start ssa.Instruction, target, avoid Pred) ssa.Instruction {
 				}
 			}
 			// phis of the successor, evaluated simultaneously for this edge
-			nk := map[*ssa.Phi]bool{}
+			nk := map[*ssa.Phi]int64{}
 			for ph, v := range it.known {
 				if ph.Block() != s {
 					nk[ph] = v
@@ -781,11 +878,10 @@ func ReachPhiAware(start ssa.Instruction, target, avoid Pred) ssa.Instruction {
 				if pi < 0 || pi >= len(ph.Edges) {
 					continue
 				}
-				if bv, isC := ConstBool(ph.Edges[pi]); isC {
-					nk[ph] = bv
-				} else if q, isPhi := ph.Edges[pi].(*ssa.Phi); isPhi {
-					if bv, known := it.known[q]; known {
-						nk[ph] = bv
+				if v, ok := evalInt(ph.Edges[pi], it.known, 0); ok {
+					// keep the state space small: integers are tracked only near zero
+					if v >= -1 && v <= 2 {
+						nk[ph] = v
 					}
 				}
 			}
@@ -796,15 +892,8 @@ func ReachPhiAware(start ssa.Instruction, target, avoid Pred) ssa.Instruction {
 			}
 		}
 	}
-	sb := start.Block()
-	idx := 0
-	for i, in := range sb.Instrs {
-		if in == start {
-			idx = i + 1
-		}
-	}
 	if scan(sb, idx) {
-		push(item{sb, map[*ssa.Phi]bool{}})
+		push(item{sb, map[*ssa.Phi]int64{}})
 	}
 	for len(work) > 0 && hit == nil {
 		it := work[len(work)-1]
